@@ -1146,6 +1146,7 @@ package larking
 //@ det MethodInput "(protoreflect.MethodDescriptor).Input" iface
 //@ det MethodOutput "(protoreflect.MethodDescriptor).Output" iface
 //@ det MsgFields "(protoreflect.MessageDescriptor).Fields" iface
+//@ det MsgDescriptor "(protoreflect.Message).Descriptor" iface
 
 // addRule (partial: the token walk relies on the lexer's grammar, which is not
 // under contract): a binding that is already occupied is compared with the
@@ -1299,6 +1300,7 @@ package larking
 // at registration are walkable (AllSingular, proved in addRule), so applying them
 // never panics; a stats handler sees one payload event per message.
 //@ func (*streamHTTP).decodeRequestArgs serves C09 C18 C16 partial pre[protoreflect inv.init inv.keep post index make slice ghost
+//@   assert atcall `cur.Set(` [http-body-fields-are-looked-up-in-the-message-that-is-filled C03] arg0 != nil ==> fdOwner(arg0) == pay(MsgFields(MsgDescriptor(cur)))
 //@   assert atcall `protoreflect.ValueOfBytes(` [http-body-data-does-not-live-in-the-pooled-buffer C13] len(arg0) == len(b) && (len(b) > 0 ==> base(arg0) != base(b))
 //@   returns (count, err)
 //@   requires s != nil && s.method != nil && AllSingular(s.method.body) && args != nil
@@ -1307,7 +1309,9 @@ package larking
 //@   ensures [one-in-payload-event-per-message C18] err == nil && s.opts.statsHandler != nil ==> payloadEvents == 1
 //@   ensures [no-event-without-message C18] err != nil ==> payloadEvents == 0
 
-//@ func (*streamHTTP).SendMsg serves C04 C09 C18 C16 partial pre[protoreflect inv.init inv.keep post assert index slice
+//@ func (*streamHTTP).SendMsg serves C04 C09 C18 C16 partial pre[protoreflect inv.init inv.keep post assert index slice ghost
+//@   assert atcall `cur.Get(` [http-body-fields-are-looked-up-in-the-message-that-is-written C04] arg0 != nil ==> fdOwner(arg0) == pay(MsgFields(MsgDescriptor(cur)))
+//@   assert atcall `s.getCodec(` [the-codec-is-chosen-for-the-message-that-is-written C04] arg2 == cur
 //@   returns (err)
 //@   requires s != nil && s.method != nil && AllSingular(s.method.resp) && impl(m, "proto.Message")
 //@   count payloadEvents `stats.HandleRPC(`
